@@ -61,7 +61,7 @@ def _make(h, name, n, p, ycombo=None, delta=None):
     elif name == 'Logistic':
         df = h.datafit(Dm.Logistic)
         y = _labels(h, n, ycombo)
-        meta['kappa'] = 0.25    # documented deviation F22 (step = grad/4); direction must be exact
+        meta['kappa'] = 4       # documented step (1/L0) * dF/db with L0 = 1/4 (doc/tutorials/intercept.md)
     elif name == 'QuadraticSVC':
         df = h.datafit(Dm.QuadraticSVC)
         y = _labels(h, n, ycombo)
@@ -253,7 +253,7 @@ def u_group_datafit(h, name, layout, pattern, ycombo=None):
     Xw_d = h.arr([Dual(Xw[i], 1.0) for i in range(n)])
     db = _tan(df.value(y, w, Xw_d))
     st = df.intercept_update_step(y, Xw)
-    h.ensure('intercept_update_step==kappa*dF/db', h.eq(st, (1 if name == 'QuadraticGroup' else 0.25) * db))
+    h.ensure('intercept_update_step==kappa*dF/db', h.eq(st, (1 if name == 'QuadraticGroup' else 4) * db))
 
 
 def u_multitask(h, n, p, T, pattern):
@@ -466,7 +466,6 @@ MANIFEST = dict(
                 "included), Cox against the textbook Breslow/Efron partial likelihood over all tie/censoring patterns of "
                 "n<=3 (4 thorough). Equalities hold for all (X, y, w), not for sampled points."),
     level_note=("Exact reals; n<=3, p<=2; exp/log uninterpreted with true axioms (a spurious sat would fail the replay, an "
-                "unsat is sound). Logistic intercept_update_step is checked to be exactly 1/4 of dF/db (its documented "
-                "scaling defect F22 is handled under C01). Reference loss formulas are transcribed from docstrings. "
+                "unsat is sound). intercept_update_step is checked to be the documented (1/L0) * dF/db. Reference loss formulas are transcribed from docstrings. "
                 "float32, rounding in Cox cumulative sums and n>4 are outside."),
 )
